@@ -9,12 +9,19 @@ from .. import gen, project
 from ..core import driver
 
 
-def _mk(path, table, px, mode, cols=("count",), dtypes=None):
+def _mk(path, table, px, mode, cols=("count",), dtypes=None, at=None):
+    """Create a cooler; with `at`, in that group of the file next to a decoy collection with other content at the root.
+    Returns the URI."""
     import cooler
     cols = list(cols)
+    if at:
+        cooler.create_cooler(path, gen.bins_frame(table), gen.pixels_frame(gen.decoy_px(px), cols, {c: np.int64 for c in cols}),
+                             columns=cols if cols != ["count"] else None, dtypes=dtypes, ordered=True,
+                             symmetric_upper=mode == "symm")
+        path = path + "::" + at
     cooler.create_cooler(path, gen.bins_frame(table), gen.pixels_frame(px, cols, {c: np.int64 for c in cols}),
                          columns=cols if cols != ["count"] else None, dtypes=dtypes, ordered=True,
-                         symmetric_upper=mode == "symm")
+                         symmetric_upper=mode == "symm", mode="a" if at else "w")
     return path
 
 
@@ -36,7 +43,7 @@ def co_coarsen(case, ctx):
     cols = case["cols"]
     scale = case.get("scale", 1)
     if scale == 1:
-        src = _mk(os.path.join(d, "src.cool"), case["table"], case["px"], case["mode"], cols)
+        src = _mk(os.path.join(d, "src.cool"), case["table"], case["px"], case["mode"], cols, at=case.get("src_at"))
     else:
         # float value columns holding exact multiples of 1/scale (dyadic, so every sum is exact)
         fr = gen.pixels_frame(case["px"], cols, {c: np.int64 for c in cols})
@@ -128,7 +135,7 @@ def zm_zoomify(case, ctx):
     import cooler
     d = ctx.subdir()
     t, mode, b0 = case["table"], case["mode"], case["binsize"]
-    base = _mk(os.path.join(d, "base.cool"), t, case["px"], mode)
+    base = _mk(os.path.join(d, "base.cool"), t, case["px"], mode, at=case.get("src_at"))
     bases = []
     for r in case["base_res"]:
         if r == b0:
